@@ -21,8 +21,10 @@ structure FSt where
   pinset : PinMap
   deriving Repr
 
-/-- the fault plan lets one of the `retries + 1` attempts through (nothing is injected at the leader itself) -/
-def planPasses (retries a lead : Nat) (plan : List PT) : Bool := a == lead || decide (plan.length ≤ retries)
+/-- the fault plan lets one of the `retries + 1` attempts through (nothing is injected at the leader itself; plans with a
+    leadership loss in mid-call are left out) -/
+def planPasses (retries a lead : Nat) (plan : List PT) : Bool :=
+  !plan.contains .x && (a == lead || decide (plan.length ≤ retries))
 
 def fAdvance (s : FSt) : FOp → FSt
   | .add _ j _ _ _ _ _ has => if has == .all then { s with members := insertPeer j s.members } else s
@@ -149,5 +151,20 @@ def cClauses (k : CCase) : List (String × Bool) :=
   cCheckPhases k.init (cInit k.init) k.phases ++ cCheckObs k.init (cFinal (cInit k.init) k.phases) k.obs
 
 def cHolds (k : CCase) : Bool := (cClauses k).all (·.2)
+
+/-! ### a joiner during a burst of pins -/
+
+/-- "A newly added peer holds the same pinset as the others before it reports itself ready": when `AddPeer` was issued
+    the others held every pin acknowledged until then; the joiner holds them when `Ready()` fires (later pins may or
+    may not have reached it). After the burst everybody — the joiner included — reports one peerset and one pinset. -/
+def jClauses (k : JCase) : List (String × Bool) :=
+  let before := k.pre ++ k.burst.take k.acked
+  let everything := (k.pre ++ k.burst).foldl (fun m p => PinMap.put p.stored m) ([] : PinMap)
+  let members := k.obs.members.filter (fun mo => (k.joiner :: k.init).contains mo.id)
+  [("joiner_synced", !okB k.addRes || before.all (fun p => (canonMap k.ready).get p.cid == some (canonPin p.stored))),
+   ("ack_in_all", !okB k.addRes || members.all (fun mo => mo.peers == insertPeer k.joiner (normPeers k.init))),
+   ("pinset_kept", members.all (fun mo => canonMap mo.pins == canonMap everything))]
+
+def jHolds (k : JCase) : Bool := (jClauses k).all (·.2)
 
 end CV.C17
